@@ -257,6 +257,22 @@ class Index:
                         ci.bases.append(s.cls)
                     else:
                         ci.ext_bases.append(ast.unparse(bb))
+        # `__hash__ = hash_by_uuid` in a class body: a module-level function of the package installed as a method (its first
+        # parameter receives the instance); the function's own module is where its names resolve
+        self.node_home: Dict[int, Module] = {}
+        for m in self.modules.values():
+            for ci in m.classes.values():
+                for st in ci.node.body:
+                    if isinstance(st, ast.Assign) and len(st.targets) == 1 and isinstance(st.targets[0], ast.Name) \
+                            and isinstance(st.value, (ast.Name, ast.Attribute)) and st.targets[0].id not in ci.methods:
+                        try:
+                            sy = self.resolve_expr(m, st.value)
+                        except Exception:  # noqa: BLE001
+                            sy = None
+                        if sy is not None and sy.kind == "func" and isinstance(sy.node, ast.FunctionDef) and sy.module is not None \
+                                and ":" in sy.qual and "." not in sy.qual.split(":")[1] and sy.node.args.args:
+                            ci.methods.setdefault(st.targets[0].id, []).append(sy.node)
+                            self.node_home[id(sy.node)] = sy.module
 
     # ------------------------------------------------------------------ digests / stats
     def digest(self) -> str:
